@@ -535,6 +535,61 @@ def run(F, R, tier):
     rule_index(E, R)
     rule_guards(E, R)
     rule_kind(E, R)
+    rule_panic(E, R)
     R.not_decided += ["exact acceptance for arbitrary compositions of the rules",
-                      "panic-freedom of every accepted program on every context (beyond the agreement tables)",
+                      "panic-freedom of every accepted program is decided only up to the reviewed list of 43 explicit panic sites (each tied to a parser/store invariant); implicit panics (bounds, arithmetic) are not examined",
                       "user-supplied check_param implementations"]
+
+
+# ----------------------------------------------------------------------------------------------
+# R04-panic: second sentence of the property — explicit panic sites reachable from compile/execute are reviewed
+
+def rule_panic(E, R):
+    import json as _json
+    import os as _os
+    rule = "R04-panic"
+    spec = _os.path.join(_os.path.dirname(_os.path.dirname(_os.path.abspath(__file__))), "spec", "exec_panics.json")
+    with open(spec) as f:
+        allowed = {(a["function"], a["kind"]): a["reason"] for a in _json.load(f)["allowed"]}
+    insts = {i["id"]: i for i in E.mono["instances"]}
+    name = {i: norm(v["path"]) for i, v in insts.items()}
+    roots = [i for i in insts if name[i] in ("ast::FilterAst::compile", "ast::FilterValueAst::compile",
+                                             "filter::Filter::execute", "filter::FilterValue::execute") and "mir" in insts[i]]
+    R.floor(rule, "compile/execute entry instances", len(roots), 4)
+    seen = set()
+    st = list(roots)
+    while st:
+        x = st.pop()
+        if x in seen:
+            continue
+        seen.add(x)
+        for e in insts[x].get("edges", []):
+            if "to" in e and e["kind"] in ("call", "closure", "fnref"):
+                st.append(e["to"])
+    sites = {}
+    for i in seen:
+        v = insts[i]
+        if "mir" not in v:
+            continue
+        for k, w, c in panic_sites(v["mir"]):
+            sites.setdefault((name[i], k), set()).add(w)
+    R.analysed["instances_reachable_from_compile_execute"] = len(seen)
+    R.floor(rule, "explicit panic sites reachable from compile/execute", len(sites), 30)
+    for (fn, k), w in sorted(sites.items()):
+        label = "%s site" % k
+        if (fn, k) in allowed:
+            R.ok(rule, fn, label + " (reviewed)", allowed[(fn, k)], sorted(w)[0])
+        else:
+            R.violation(rule, fn, label,
+                        "an explicit panic is reachable from compile()/execute() and is not in the reviewed list (spec/exec_panics.json): "
+                        "an accepted filter must compile and run without panicking", sorted(w)[0])
+    # guard of one reviewed entry: ContainsOneOf is never constructed by non-test code
+    built = []
+    derived = {it["dp"] for imp in E.impls if imp["derived"] for it in imp["items"]}
+    for hb in E.hir_list:
+        if "body" not in hb or "::tests::" in norm(hb["path"]) or hb["dp"] in derived or any(hb["dp"].startswith(d + "::") for d in derived):
+            continue
+        if "ContainsOneOf" in built_variants(hb["body"], "ComparisonOpExpr"):
+            # pattern matches are not constructions: built_variants only looks at expressions
+            built.append(norm(hb["path"]))
+    R.check(not built, rule, "ast::field_expr::ComparisonOpExpr::ContainsOneOf", "never constructed (its compile arm is an unreachable!)", str(built))
